@@ -114,25 +114,58 @@ inductive Mark where
   | mark (f : Nat)
   | faulted (rc : Nat)
 
+/-- `itnextp`: cif_pktitr_next_packet with a caller-supplied packet (its entries: key, spelling) and the names the harness then
+    asks the packet for -/
+structure Caller where
+  entries : List (Str × Str)
+  probes : List Name
+
 def parseMark (t : String) : Option Mark :=
   match t.splitOn ":" with
   | ["mark", f] => f.toNat?.map Mark.mark
   | ["faulted", rc] => rc.toNat?.map Mark.faulted
   | _ => none
 
-def parseOps : Nat → List String → Option (List (Mark × Op))
+/-- n (NAME VALUE){n} of a caller-supplied packet: only key and spelling matter (the values are replaced) -/
+def parseCallerEntries : Nat → List String → Option (List (Str × Str) × List String)
+  | 0, toks => some ([], toks)
+  | n + 1, t :: rest => do
+      let nm ← parseName t
+      let nm ← nm
+      let (_, r) ← parseOptValue rest
+      let (es, r') ← parseCallerEntries n r
+      pure ((nm.key, nm.orig) :: es, r')
+  | _ + 1, [] => none
+
+/-- one op, possibly `itnextp I n (NAME VALUE){n} m NAME{m}` -/
+def parseOpX : List String → Option (Option Caller × Op × List String)
+  | "itnextp" :: i :: n :: rest => do
+      let idx ← parseNat i
+      let k ← parseNat n
+      let (entries, r1) ← parseCallerEntries k rest
+      match r1 with
+      | m :: r2 => do
+          let (probes, r3) ← parseNames (← parseNat m) r2
+          -- the packet is a map keyed by normalised name: a repeated key keeps its first position (and takes the later spelling)
+          let ents := entries.foldl (fun (acc : List (Str × Str)) e =>
+            if acc.any (fun a => a.1 == e.1) then acc.map (fun a => if a.1 == e.1 then e else a) else acc ++ [e]) []
+          pure (some { entries := ents, probes := probes }, Op.itNext idx, r3)
+      | [] => none
+  | toks => (parseOp toks).map (fun (op, r) => (none, op, r))
+
+def parseOps : Nat → List String → Option (List (Mark × Option Caller × Op))
   | _, [] => some []
   | 0, _ => none
   | fuel + 1, t :: rest =>
     match parseMark t with
     | some m => do
-        let (op, r) ← parseOp rest
+        let (c, op, r) ← parseOpX rest
         let ops ← parseOps fuel r
-        pure ((m, op) :: ops)
+        pure ((m, c, op) :: ops)
     | none => do
-        let (op, r) ← parseOp (t :: rest)
+        let (c, op, r) ← parseOpX (t :: rest)
         let ops ← parseOps fuel r
-        pure ((Mark.plain, op) :: ops)
+        pure ((Mark.plain, c, op) :: ops)
 
 /-- the harness appends one (dead) entry to the handle table of an op that can return a handle, also when the call failed -/
 def pushDead (w : World) : Op → World
@@ -191,14 +224,27 @@ def observe (w : World) (last : List (Option String)) : String × List (Option S
       | none => (acc.1, acc.2 ++ [none])
       | some s =>
         let d := showDump s ++ (if s.db.rowsBelowB then "" else " !rows-above-last_row_num")
+          ++ (if s.db.packetsTotalB then "" else " !packet-not-total")
         if (last.getD i none) == some d then (acc.1 ++ " " ++ toString i ++ ":=", acc.2 ++ [some d])
         else (acc.1 ++ " " ++ toString i ++ ":" ++ d, acc.2 ++ [some d])) ("", [])
   (" ; ac=" ++ bits ++ txt, last')
 
-def runOps (ops : List (Mark × Op)) : String :=
+/-- the result text of a step; with a caller-supplied packet and CIF_OK: the names the packet holds afterwards and the probes -/
+def showStep (c : Option Caller) (op : Op) (r : Result) : String :=
+  match c, r.rc, r.out with
+  | some cl, some 0, .packet p =>
+    let mp := mergeCallerPacket cl.entries p
+    " | rc=0" ++ String.join ((isort strLe (mp.map (fun e => e.2.1))).map (fun n => " N:" ++ hex n))
+      ++ String.join (cl.probes.map (fun q => " " ++ hex q.orig ++ "=" ++
+          (match mp.find? (fun e => e.1 == q.key) with
+           | some e => showValue e.2.2
+           | none => "!43")))
+  | _, _, _ => showResult op r
+
+def runOps (ops : List (Mark × Option Caller × Op)) : String :=
   let (_, _, out) := ops.foldl (fun (acc : World × List (Option String) × String) mo =>
       let (w, last, out) := acc
-      let (m, op) := mo
+      let (m, c, op) := mo
       match m with
       | .faulted rc =>
         -- the model of the documented failure path (Model/StoreFault.lean); an op that is not executed at all stays skipped
@@ -211,12 +257,12 @@ def runOps (ops : List (Mark × Op)) : String :=
         | none =>
           let (w1, r) := step w op
           let (obs, last1) := observe w1 last
-          (w1, last1, out ++ showResult op r ++ " !fault1" ++ obs)
+          (w1, last1, out ++ showStep c op r ++ " !fault1" ++ obs)
       | _ =>
         let (w1, r) := step w op
         let (obs, last1) := observe w1 last
         let tag := match m with | .mark f => " !fault" ++ toString f | _ => ""
-        (w1, last1, out ++ showResult op r ++ tag ++ obs)) (({} : World), [], "st")
+        (w1, last1, out ++ showStep c op r ++ tag ++ obs)) (({} : World), [], "st")
   out
 
 def handle : Handler := fun args =>
